@@ -118,6 +118,33 @@ def input_ids(case):
         by['*'].add(f['id']); by['backbones'].add(f['id'])
     return by
 
+F_RESTART = 'C03-index-restart-per-graph'
+
+def index_restart_signature(ev, e, txs):
+    """known finding C03-index-restart-per-graph: every graph of one transcript (main, one per fusion, one per circRNA)
+    builds its own VariantPeptideDict, so the occurrence counters of '<tx>|<ids>' restart; a peptide of the donor part
+    of a FUSION graph that carries only transcript-level records gets a '<tx>|<ids>|<n>' string the main graph already
+    gave away.  Signature: the duplicated string has a PLAIN TRANSCRIPT backbone, the input has a fusion whose donor (or
+    a circRNA whose transcript) is that backbone, and one of the peptides carrying the string shows that a second graph
+    labelled it: it carries the same '<tx>|<ids>' twice - with two different indices (within one graph a peptide gets a
+    label once) or, on non-coding donors, with two different ORF ids (ORFn is numbered per graph as well) -, or an
+    entry on a FUSION- / CIRC- backbone of that transcript.  A duplicate without such a record on the
+    backbone, a duplicated FUSION- / CIRC- entry, or a duplicate nobody but one graph can have produced: VIOLATION."""
+    bb = e.split('|')[0]
+    if bb not in txs:
+        return None
+    alt_ids = [f['id'] for f in ev.case.get('fusions', []) if f['donor_tx'] == bb] + \
+              [r['row']['id'] for r in ev.case.get('circ_records', []) if r['tx'] == bb]
+    if not alt_ids:
+        return None
+    for seq, es in ev.got.items():
+        if e not in es:
+            continue
+        same = [x for x in es if _noorf(x) == _noorf(e)]
+        if len(set(same)) >= 2 or any(x.split('|')[0] in alt_ids for x in es):
+            return F_RESTART
+    return None
+
 def judge_ids(evs, violations, stats):
     """C03 on alternative-splicing / circRNA / fusion backbones, the part that needs no semantics: every entry parses
     (<backbone>|<id>|...|[ORFn|]<index>), the backbone is a transcript carrying records or the id of a supplied
@@ -168,12 +195,17 @@ def judge_ids(evs, violations, stats):
         if entries:
             stats['nontrivial'] += 1
         if len(set(entries)) != len(entries):
-            dup = [e for e, k in collections.Counter(entries).items() if k > 1]
-            bad['duplicate-entry'].append(('', dup[0]))
+            for e in [e for e, k in collections.Counter(entries).items() if k > 1]:
+                tag = index_restart_signature(ev, e, txs)
+                bad['duplicate-entry:%s' % (tag or '')].append((' / '.join(s_ for s_, es in ev.got.items() if e in es), e))
         for kind, lst in bad.items():
+            tag = kind.split(':')[1] if ':' in kind else ''
             stats['bad:%s' % kind] += len(lst)
-            violations.append({'what': 'header entry %r of peptide %s: %s (%d such in this run; %s)' % (lst[0][1], lst[0][0], kind, len(lst), ev.case.get('stream')),
-                               'replay_obj': CK.replay_obj(ev, 'header-ids', {'entries': [list(x) for x in lst[:10]], 'kind': kind}), 'no_input': False})
+            v = {'what': 'header entry %r of peptide %s: %s (%d such in this run; %s)' % (lst[0][1], lst[0][0], kind.split(':')[0], len(lst), ev.case.get('stream')),
+                 'replay_obj': CK.replay_obj(ev, 'header-ids', {'entries': [list(x) for x in lst[:10]], 'kind': kind}), 'no_input': False}
+            if tag:
+                v['finding'] = tag
+            violations.append(v)
 
 def sect_positions(case, tx_id):
     """{n: transcript position of the Sec codon} for the ids SECT-n the backbone can carry: n = 1-based GENE
@@ -207,12 +239,17 @@ def corpus_cases():
         c['repeat'] = o.get('repeat', 1)
         if o.get('expect_entries'):
             c['expect_entries'] = o['expect_entries']
+        if o.get('what') == 'header-ids':
+            c['check'] = 'ids'          # fusion / circRNA / AS input: id + uniqueness check of judge_ids
         out.append(c)
     return out
 
 def _noidx(entry):
     f = entry.split('|')
     return '|'.join(f[:-1]) if f and f[-1].isdigit() else entry
+
+def _noorf(entry):
+    return '|'.join(x for x in _noidx(entry).split('|') if not re.fullmatch(r'ORF\d+', x))
 
 def gvf_ids(case):
     d = collections.defaultdict(set)
@@ -573,10 +610,17 @@ def run(ctx):
     violations = []
     corp = corpus_cases()
     if corp:
-        rep = []
+        rep, rep_ids = [], []
         for c in corp:
-            rep += [c] * c.get('repeat', 1)
+            if c.get('check') == 'ids':
+                for r in c['runs']:
+                    r['skip_oracle'] = True
+                rep_ids += [c] * c.get('repeat', 1)
+            else:
+                rep += [c] * c.get('repeat', 1)
         judge(CK.run_batch(ctx, rep, want_may=False, tag='c03c'), violations, stats)
+        if rep_ids:
+            judge_ids(CK2.run_batch(ctx, rep_ids, want_may=False, tag='c03ci'), violations, stats)
         seen = set(); uniq = []
         for v in violations:
             k = (v.get('finding'), v['what'])
